@@ -112,13 +112,13 @@ add("C13",
     "_remove_stale_checkpoint / dump_to_file as atomic file steps (open tmp, finish, rename, remove): after the first checkpoint "
     "of a call is complete every crash point leaves a complete checkpoint, a later call's re-write keeps the old file complete, "
     "only the call's own files are ever touched or deleted, at most n remain - for every directory content, retention count >= 1 "
-    "and number of rounds. The model is tied to the code by injecting a crash before every file step and inside every write of "
+    "and number of rounds. The file operations of one checkpoint, the over-the-limit test and the oldest-first removal are emitted by a translator that pins the statements of the three methods (tr_checkpoint.py -> Gen/CheckpointRules.v) and the model's ckpt_ops is proved to be built from exactly those. The model is also tied to the code by injecting a crash before every file step and inside every write of "
     "real checkpointed runs and comparing which files are absent / unloadable / loadable (inside Coq). Clause (b), lossless and "
     "transparent dump/load, is NOT proved: dill is outside any model; it is covered by a dump-load-continue differential test only.",
     "Trusted: Coq kernel; atomicity of os.replace and of the four step kinds; the harness's wrappers around open/dill/os. "
     "num_checkpoints=0 is a known finding (F14b). ParallelArchipelago's own dump_to_file/_remove_stale_checkpoint are not "
     "exercised (mpi4py absent). Clause (b) is a test, labelled as such in the evidence. Axiom-free.",
-    "Rocq/Coq proof over all crash prefixes + fault-injection correspondence; differential test for the dill clause")
+    "Rocq/Coq proof over all crash prefixes + translator/pin for the file operations + fault-injection correspondence; differential test for the dill clause")
 
 add("C18",
     "Coq theorems over a store-based model of AGraph objects (arrays are cells, objects hold references to a raw and a cached "
